@@ -268,6 +268,27 @@ class W:
             import copy
             import pickle
             self.forms = getattr(self, "forms", {})
+            if it[1] == 9:
+                # LIFETIME instead of copying: the harness forgets every IR that has a module (the last reference from outside the
+                # object graph), collects garbage, and finds the IR again through its first module -- a parent stays alive as long
+                # as a child names it, and it is the same object
+                import gc
+                for n in [n for n, k in self.kind.items() if k == "IR" and n in self.obj and len(self.obj[n].modules)]:
+                    first = self.obj[n].modules[0]
+                    was = id(self.obj[n])
+                    del self.num[was]
+                    del self.obj[n]
+                    gc.collect()
+                    again = first.ir
+                    if again is None or id(again) != was:
+                        self.obj[n] = again if again is not None else self.g.IR()
+                        self.num[id(self.obj[n])] = n
+                        raise AssertionError("an IR reached again through its first module after the last outside reference was dropped is %s"
+                                             % ("gone (module.ir is None)" if again is None else "another object"))
+                    self.obj[n] = again
+                    self.num[was] = n
+                self.forms["irs-forgotten-and-found-again"] = self.forms.get("irs-forgotten-and-found-again", 0) + 1
+                return [0]
             how = "deepcopy" if it[1] == 0 else "pickle"
             # (expression objects the harness numbered without keeping them in `exprs` -- equal-but-distinct clones stored by a check
             # -- are found through the intervals that hold them)
